@@ -315,7 +315,7 @@ int main (int argc, char *argv[]) {
                      * out the split string */
                     matched++;
                     if(matched == split_size) {
-                        if(l > matched)
+                        if(l >= matched)
                             write_data(zck, data + start, l - (start + matched - 1));
                         if(zck_end_chunk(zck) < 0)
                             exit(1);
@@ -335,6 +335,10 @@ int main (int argc, char *argv[]) {
         }
         write_data(zck, data + start, in_size - (start + matched));
     }
+    /* The start of a split string at the very end of the input was held back
+     * in case the rest followed: it is ordinary data after all */
+    if(in_size == 0 && matched > 0)
+        write_data(zck, arguments.split_string, matched);
 
     if(in_size < 0) {
         LOG_ERROR("Error reading %s", arguments.args[0]);
